@@ -99,6 +99,13 @@ def boxOffsets (bshape : List Nat) : List (List Int) :=
 def starShaped (bshape : List Nat) (members : List (List Int)) : Bool :=
   members.all fun k => (boxOffsets bshape).all fun k' => !between k' k || members.contains k'
 
+/-- coordinate-wise star-shaped **and height-monotone towards the centre**: every box offset `k'` between 0
+    and a member `k` is a member whose height is at least that of `k` (flat star-shaped elements pass; so does
+    the cross on a signed dtype, whose off-footprint cells are members of height 0; so does any "pyramid") -/
+def starMonotone (bshape : List Nat) (members : List (List Int × Int)) : Bool :=
+  members.all fun kh => (boxOffsets bshape).all fun k' =>
+    !between k' kh.1 || members.any fun kh' => kh'.1 == k' && decide (kh.2 ≤ kh'.2)
+
 /-- flat: every member has the same height -/
 def flatHeights (hs : List Int) : Bool :=
   match hs with
@@ -394,9 +401,11 @@ def handle (a : Args) : String :=
     let model := (dilateModel dt A sup).toList
     let fast := if dt.isBool && shape.length == 2 then (fastDilate A bshape bc).toList else model
     let loops := if dt.isBool && shape.length == 2 then (fastDilateLoops A bshape bc).toList else model
-    let regular := starShaped bshape (members.map (·.1)) && flatHeights (members.map (·.2))
+    let flat := starShaped bshape (members.map (·.1)) && flatHeights (members.map (·.2))
+    let regular := flat || starMonotone bshape members
     let obs := (allPos shape).map fun q => regular || boxInterior shape bshape q
-    s!"spec={showInts spec} model={showInts model} fast={showInts fast} loops={showInts loops} obs={showBools obs}{disp dilateDispatch}"
+    let cls := if flat then "flat" else if regular then "monotone" else "none"
+    s!"spec={showInts spec} model={showInts model} fast={showInts fast} loops={showInts loops} obs={showBools obs} cls={cls}{disp dilateDispatch}"
   | "getse" => s!"ok=1 bshape={showNats bshape} elem={showInts bc.toList}"
   | "cross" => s!"elem={showInts (crossElem (a.nat "d") (a.int "r")).toList}"
   | "disk" => s!"elem={showInts (diskElem (a.nat "d") (a.nat "r")).toList}"
